@@ -5,6 +5,7 @@ use std::net::SocketAddrV4;
 use std::net::SocketAddrV6;
 
 use anyhow::Result;
+use anyhow::bail;
 use tokio_util::bytes::Buf;
 use tokio_util::bytes::BufMut;
 use tokio_util::bytes::BytesMut;
@@ -34,7 +35,19 @@ pub fn encode(addr: &Address, dst: &mut BytesMut) {
 }
 
 pub fn decode(src: &mut BytesMut) -> Result<Address> {
+    if !src.has_remaining() {
+        bail!("insufficient length of address");
+    }
     let addr_type = Socks5AddressType::try_from(src.get_u8())?;
+    let required = match addr_type {
+        Socks5AddressType::Ipv4 => 4 + 2,
+        Socks5AddressType::Domain if src.has_remaining() => 1 + src[0] as usize + 2,
+        Socks5AddressType::Domain => 1,
+        Socks5AddressType::Ipv6 => 16 + 2,
+    };
+    if src.remaining() < required {
+        bail!("insufficient length of address, expecting {} bytes, but found {} bytes", required, src.remaining());
+    }
     match addr_type {
         Socks5AddressType::Ipv4 => {
             let ip_v4 = Ipv4Addr::from(src.get_u32());
